@@ -76,7 +76,7 @@ func (ev *Ev) convert(v Value, to types.Type, at ast.Expr) Value {
 		if v.S == SRef {
 			ln = app("strlen", v.T)
 		}
-		return Value{K: vSlice, Typ: to, Comp: map[string]Value{"#arr": scalar(arr, SRef, nil), "#len": intV(ln)}}
+		return u.withSet(Value{K: vSlice, Typ: to, Comp: map[string]Value{"#arr": scalar(arr, SRef, nil), "#len": intV(ln)}}, "")
 	}
 	switch {
 	case v.S == ts:
@@ -186,7 +186,12 @@ func (ev *Ev) builtin(name string, x *ast.CallExpr) Value {
 				cur := u.fam(ev.st, key, as)
 				u.setFam(ev.st, key, as, app("store", cur, arr, fmt.Sprintf("((as const (Array Int %s)) %s)", lf.sort, u.zeroOf(lf.sort))))
 			}
-			return Value{K: vSlice, Typ: t, Comp: map[string]Value{"#arr": scalar(arr, SRef, nil), "#len": intV(ln.T)}}
+			mv := Value{K: vSlice, Typ: t, Comp: map[string]Value{"#arr": scalar(arr, SRef, nil), "#len": intV(ln.T)}}
+			if ss := u.setSortOf(ut.Elem()); ss != "" {
+				es := u.sortOf(ut.Elem())
+				mv = u.withSet(mv, app("ite", app(">", ln.T, "0"), app("store", u.emptySet(ss), u.zeroOf(es), "true"), u.emptySet(ss)))
+			}
+			return mv
 		case *types.Map:
 			m := u.allocRef(ev.st, "map")
 			ev.initEmptyMap(ut, m)
@@ -217,6 +222,13 @@ func (ev *Ev) builtin(name string, x *ast.CallExpr) Value {
 			arr := u.allocRef(ev.st, "arr")
 			tl := ev.lenOf(tt, x).T
 			res := Value{K: vSlice, Typ: s.Typ, Comp: map[string]Value{"#arr": scalar(arr, SRef, nil), "#len": intV(app("+", s.Comp["#len"].T, tl))}}
+			if ss := u.setSortOf(st.Elem()); ss != "" {
+				ns := u.fresh("set", ss)
+				ks, _, _ := ss.isArray()
+				a, b := u.setOf(s), u.setOf(tt)
+				ev.st.assume(fmt.Sprintf("(forall ((x %s)) (! (= (select %s x) (or (select %s x) (select %s x))) :pattern ((select %s x))))", ks, ns, a, b, ns))
+				res = u.withSet(res, ns)
+			}
 			if tt.K == vSlice {
 				for _, lf := range u.leaves(st.Elem()) {
 					key, as := ev.elemFam(typeKey(st.Elem()), lf.path, lf.sort)
@@ -245,7 +257,11 @@ func (ev *Ev) builtin(name string, x *ast.CallExpr) Value {
 				f := u.fam(ev.st, key, as)
 				u.setFam(ev.st, key, as, app("store", f, arr, app("store", app("select", f, cur.Comp["#arr"].T), cur.Comp["#len"].T, l.T)))
 			})
-			cur = Value{K: vSlice, Typ: s.Typ, Comp: map[string]Value{"#arr": scalar(arr, SRef, nil), "#len": intV(app("+", cur.Comp["#len"].T, "1"))}}
+			nxt := Value{K: vSlice, Typ: s.Typ, Comp: map[string]Value{"#arr": scalar(arr, SRef, nil), "#len": intV(app("+", cur.Comp["#len"].T, "1"))}}
+			if ss := u.setSortOf(st.Elem()); ss != "" && val.K == vScalar {
+				nxt = u.withSet(nxt, app("store", u.setOf(cur), val.T, "true"))
+			}
+			cur = nxt
 		}
 		u.assumeNote("append is modelled as always copying to a fresh backing array (in-place aliasing not tracked)")
 		return cur
@@ -270,7 +286,7 @@ func (ev *Ev) builtin(name string, x *ast.CallExpr) Value {
 	case "delete":
 		m := ev.expr(x.Args[0])
 		mt := m.Typ.Underlying().(*types.Map)
-		k := ev.coerce(ev.expr(x.Args[1]), mt.Key())
+		k := ev.mapKey(ev.expr(x.Args[1]), mt.Key())
 		dom, _, card, ds, _ := ev.mapFams(mt, "", SRef)
 		dcur := u.fam(ev.st, dom, ds)
 		ccur := u.fam(ev.st, card, arraySort(SRef, SInt))
@@ -394,6 +410,10 @@ func (u *Unit) call(ev *Ev, x *ast.CallExpr, callee types.Object) Value {
 				r := base
 				for _, i := range idx[:len(idx)-1] {
 					r = ev.stepField(r, i, sel.Pos())
+				}
+				if r.K == vStruct && len(r.Comp) == 0 && isOpaqueStruct(r.Typ) {
+					// method on an opaque struct held in a field (sync/atomic values): the receiver is identified by the field's address
+					r = scalar(u.objKey(ev, sel.X), SRef, types.NewPointer(r.Typ))
 				}
 				recv = &r
 			}
@@ -748,7 +768,7 @@ func (u *Unit) applyContract(ev *Ev, c *Contract, sig *types.Signature, recv *Va
 					for j := i; j < len(args); j++ {
 						ev.assignLV(&LValue{K: lvElem, Ref: arr, Idx: fmt.Sprint(j - i), Typ: st2.Elem(), ElemKey: typeKey(st2.Elem())}, args[j])
 					}
-					binds[n] = Value{K: vSlice, Typ: sig.Params().At(i).Type(), Comp: map[string]Value{"#arr": scalar(arr, SRef, nil), "#len": intV(fmt.Sprint(len(args) - i))}}
+					binds[n] = u.withSet(Value{K: vSlice, Typ: sig.Params().At(i).Type(), Comp: map[string]Value{"#arr": scalar(arr, SRef, nil), "#len": intV(fmt.Sprint(len(args) - i))}}, "")
 				}
 				continue
 			}
@@ -1371,4 +1391,17 @@ func (u *Unit) callbackIteration(ev *Ev, sev *Ev, c *Contract, pnames []string, 
 	})
 	st.assume(app("=", i, n))
 	u.eng.noteMeta(u, "callback iteration: "+shortKey(c.Key)+" calls its function argument once per index of its iterates clause, in order (clause checked against the callee only for call count and per-call argument)")
+}
+
+// setOf returns the set view of a slice value (a fresh unknown set when the value carries none).
+func (u *Unit) setOf(v Value) string {
+	if sv, ok := v.Comp["#set"]; ok && sv.T != "" {
+		return sv.T
+	}
+	if sl, ok := isSliceT(v.Typ); ok {
+		if ss := u.setSortOf(sl.Elem()); ss != "" {
+			return u.fresh("set", ss)
+		}
+	}
+	return u.fresh("set", arraySort(SRef, SBool))
 }
